@@ -12,6 +12,7 @@ package main
 // or by a Remove of an element looked up from that map (the previous record was unlinked first).
 
 import (
+	"strings"
 	"fmt"
 
 	"golang.org/x/tools/go/ssa"
@@ -98,4 +99,47 @@ func runEngineE7(p *Prog, o *obls) {
 		})
 	}
 	o.ok("E7", "inspected", "-", fmt.Sprintf("%d list insertion(s) filed in an index map", n))
+	e7OrderIsSendOrder(p, o)
+}
+
+// E7 (the list's order is the order of insertion) — the eviction list of a history is cut at its back, so what is
+// dropped first is what was filed first: "the last N sent". An element is moved to the front only where it is filed
+// anew (the same function rewrites the element's Value: a packet sent again under the same key). A lookup that moves
+// what it found to the front turns the history into a cache of what was *asked about* last: packets that are still
+// in flight are evicted ahead of packets that were already acknowledged.
+func e7OrderIsSendOrder(p *Prog, o *obls) {
+	n := 0
+	for _, fn := range p.Funcs {
+		if fn.Blocks == nil || !p.InUniverse(fn) {
+			continue
+		}
+		var moves []*ssa.Call
+		rewrites := false
+		instrsOf(fn, func(in ssa.Instruction) {
+			switch x := in.(type) {
+			case *ssa.Call:
+				sc := x.Call.StaticCallee()
+				if sc != nil && sc.Pkg != nil && sc.Pkg.Pkg.Path() == "container/list" && (sc.Name() == "MoveToFront" || sc.Name() == "MoveToBack") {
+					moves = append(moves, x)
+				}
+			case *ssa.Store:
+				if fa, ok := x.Addr.(*ssa.FieldAddr); ok && strings.HasSuffix(typeKey(deref(fa.X.Type())), "container/list.Element") {
+					if fv := fieldOfAddr(fa); fv != nil && fv.Name() == "Value" {
+						rewrites = true
+					}
+				}
+			}
+		})
+		if len(moves) == 0 {
+			continue
+		}
+		n++
+		key := funcKey(fn) + ":list-order"
+		if rewrites {
+			o.ok("E7", key, p.instrPos(moves[0]), "an element is moved only where it is filed anew (its Value is rewritten in the same function)")
+		} else {
+			o.bad("E7", key, p.instrPos(moves[0]), fmt.Sprintf("the element is moved within the eviction list at %s by a function that does not file it anew: the list is no longer in the order of insertion, and the cut at its back drops recent entries ahead of old ones that were merely looked up", p.instrPos(moves[0])))
+		}
+	}
+	o.ok("E7", "list-order-inspected", "-", fmt.Sprintf("%d function(s) that reorder an eviction list", n))
 }
